@@ -307,7 +307,7 @@ def run(repo: Repo, tier: str) -> Report:
            f"stores: {[(s.arr, s.rhs.key()) for s in call_stores]}", call_stores[0].stmt if call_stores else fn)
         if fn.endswith("_nd"):
             ndp = k.params[1]
-            g = f"ne0[-1*{ndp} + {xin}].any[]"
+            g = f"any[ne0[-1*{ndp} + {xin}]]"
             ok1 = all(list(s.guards) == [g] for s in call_stores)
             other = [s for s in s_.stores if s not in call_stores]
             vals = {s.arr: s.rhs.key() for s in other if list(s.guards) == [f"not[{g}]"] and s.idx_key == "0"}
